@@ -101,11 +101,16 @@ func cleanupSpecs(thorough bool) []specCase {
 		{"fanin5", 5, [][]int{{}, {}, {}, {}, {0, 1, 2, 3}}},
 		{"ladder5", 5, [][]int{{}, {0}, {0}, {1, 2}, {1, 2, 3}}},
 		{"vee5", 5, [][]int{{}, {0}, {}, {2}, {1, 3}}},
+		{"chain11", 11, chainAdj(11)},
+		{"fanin12", 12, faninAdj(12)},
 	}
 	kinds := []int{NFunc, NStruct, NStructV, NField, NPtrField, NBound, NValue, NParam}
 	for _, sh := range shapes {
 		// all-cleanup baseline and every single node re-kinded
 		for dev := -1; dev < sh.n; dev++ {
+			if sh.n > 6 && dev > 0 && dev != sh.n/2 && dev != sh.n-1 {
+				continue
+			}
 			for _, k := range kinds {
 				if dev < 0 && k != NFunc {
 					continue
@@ -138,7 +143,7 @@ func cleanupSpecs(thorough bool) []specCase {
 			}
 		}
 		// cleanup subsets: every subset of nodes returns a cleanup (others plain)
-		if thorough || sh.n <= 4 {
+		if (thorough && sh.n <= 6) || sh.n <= 4 {
 			for m := 0; m < 1<<uint(sh.n); m++ {
 				g := &GraphSpec{N: sh.n, Adj: sh.adj, Nodes: make([]NodeSpec, sh.n), Root: sh.n - 1, InSet: false}
 				for i := range g.Nodes {
@@ -149,6 +154,22 @@ func cleanupSpecs(thorough bool) []specCase {
 		}
 	}
 	return out
+}
+
+func chainAdj(n int) [][]int {
+	adj := make([][]int, n)
+	for i := 1; i < n; i++ {
+		adj[i] = []int{i - 1}
+	}
+	return adj
+}
+
+func faninAdj(n int) [][]int {
+	adj := make([][]int, n)
+	for i := 0; i+1 < n; i++ {
+		adj[n-1] = append(adj[n-1], i)
+	}
+	return adj
 }
 
 func runSpecs(c *h.Check, specs []specCase, classes map[string]bool) (cases []*h.Case, results []*h.Result) {
